@@ -1153,7 +1153,17 @@ func c10MapSrc(p c10Place, k c10Val, member bool) (string, bool) {
 }
 
 // opMapRead: `p[k]`, `p.k`, c10get(p, k).
+// boxKey supplies the key through a list element now and then (an
+// interface-boxed key: same key value, other provenance)
+func (h *c10Hist) boxKey(k c10Val, member bool) c10Val {
+	if !member && h.c.Rng.Intn(3) == 0 {
+		k.src = "[" + k.src + "][0]"
+	}
+	return k
+}
+
 func (h *c10Hist) opMapRead(p c10Place, k c10Val, member, viaCall bool) *c10Op {
+	k = h.boxKey(k, member)
 	src, ok := c10MapSrc(p, k, member)
 	if !ok {
 		return nil
@@ -1202,6 +1212,7 @@ func (h *c10Hist) opMapRead(p c10Place, k c10Val, member, viaCall bool) *c10Op {
 
 // opMapWrite: `p[k] = v`, `p.k = v`, c10set(p, k, v).
 func (h *c10Hist) opMapWrite(p c10Place, k, v c10Val, member, viaCall bool) *c10Op {
+	k = h.boxKey(k, member)
 	src, ok := c10MapSrc(p, k, member)
 	if !ok {
 		return nil
@@ -1243,6 +1254,7 @@ func (h *c10Hist) opMapWrite(p c10Place, k, v c10Val, member, viaCall bool) *c10
 
 // opDelete: `delete(p, k)` or c10del(p, k); on a slice it is an ill-typed operand.
 func (h *c10Hist) opDelete(p c10Place, k c10Val, viaCall bool) *c10Op {
+	k = h.boxKey(k, false)
 	src, opk := "delete("+p.src()+", "+k.src+")", "delete"
 	if viaCall {
 		src, opk = "c10del("+p.src()+", "+k.src+")", "call-delete"
